@@ -785,58 +785,9 @@ def extras_falsy():
 
 
 def extras_inspect_window():
-    """the same object of a not-yet-seen class in two messages sent back to back: the second is dispatched by the nested
-    serve() of the first one's HANDLE_INSPECT round trip.  Both receptions must be ONE proxy (`is`), counting 2, and after
-    it is let go the owner's table is empty.  Single-threaded ends; real code only."""
-    import rpyc
-    import simnet
-    from rpyc.core import brine
-    errs = []
-    net = simnet.Net()
-    with net.installed():
-        ca, cb = net.connect_pair(compress=False)
-        try:
-            got, hold = [], []
-
-            def keep(x):                 # runs at A
-                got.append(x)
-                return len(got)
-
-            def twice(keep_fn, n):       # runs at B: one fresh-class object in n requests, sent back to back
-                fresh = type("FreshTwice", (object,), {})()
-                hold.append([fresh] + [rpyc.async_(keep_fn)(fresh) for _ in range(n)])
-                return None
-
-            def ping():
-                return None
-            twice_p, ping_p = [ca._unbox(brine.load(brine.dump(cb._box(f)))) for f in (twice, ping)]
-            for n in (2, 3):
-                del got[:]
-                twice_p(keep, n)
-                ping_p()
-                ping_p()
-                if len(got) != n:
-                    errs.append("%d requests with the same fresh object: %d arrived" % (n, len(got)))
-                elif not all(p is got[0] for p in got):
-                    errs.append("the same remote object received %d times while its proxy is alive (the later messages "
-                                "dispatched during the first one's INSPECT round trip) arrived as %d different proxies"
-                                % (n, len(set(id(p) for p in got))))
-                elif object.__getattribute__(got[0], "____refcount__") != n:
-                    errs.append("one proxy received %d times counts %d references" % (
-                        n, object.__getattribute__(got[0], "____refcount__")))
-                del got[:]
-                ping_p()
-                ping_p()
-                left = [k for k in cb._local_objects._dict if k[0].endswith("FreshTwice")]
-                if left:
-                    errs.append("after the proxies were let go the owner's table still holds the object")
-        except Exception as ex:  # noqa
-            errs.append("the inspect-window scenario raised %s: %s" % (type(ex).__name__.split(".")[-1], str(ex)[:100]))
-        finally:
-            twice_p = ping_p = None
-            del got[:], hold[:]
-            net.shutdown([ca])
-    return errs
+    """the same object of a not-yet-seen class in messages sent back to back (shared with C10)"""
+    import c10
+    return c10.extra_same_object_during_inspect()
 
 
 def all_extras():
